@@ -62,10 +62,10 @@ type acctModel struct {
 }
 
 type simBlock struct {
-	block  *types.Block
-	parent *simBlock
-	model  []acctModel // indexed by planned account
-	credits []BalEdit  // balance credits applied in this block (blob pool runs)
+	block   *types.Block
+	parent  *simBlock
+	model   []acctModel // indexed by planned account
+	credits []BalEdit   // balance credits applied in this block (blob pool runs)
 }
 
 func (b *simBlock) number() uint64 { return b.block.NumberU64() }
